@@ -42,12 +42,14 @@ func (pad iso9797M3Padding) Pad(src []byte) []byte {
 	}
 
 	tail = head[srcLen+pad.BlockSize():]
-	clear(head[:pad.BlockSize()])
+	// head may alias src: move the data before clearing the length block
 	copy(head[pad.BlockSize():], src)
+	clear(head[:pad.BlockSize()])
 	if overhead > 0 {
 		clear(tail)
 	}
-	byteorder.BEPutUint64(head[8:], uint64(srcLen*8))
+	// the bit length is right-aligned in the first block
+	byteorder.BEPutUint64(head[pad.BlockSize()-8:], uint64(srcLen)*8)
 	return head
 }
 
@@ -57,14 +59,19 @@ func (pad iso9797M3Padding) Unpad(src []byte) ([]byte, error) {
 	if srcLen < 2*pad.BlockSize() || srcLen%pad.BlockSize() != 0 {
 		return nil, errors.New("padding: invalid src length")
 	}
-	for _, b := range src[:8] {
+	for _, b := range src[:pad.BlockSize()-8] {
 		if b != 0 {
 			return nil, errors.New("padding: invalid padding header")
 		}
 	}
-	dstLen := int(byteorder.BEUint64(src[8:pad.BlockSize()])/8)
-	if dstLen < 0 || dstLen > srcLen-pad.BlockSize() {
+	bitLen := byteorder.BEUint64(src[pad.BlockSize()-8 : pad.BlockSize()])
+	if bitLen%8 != 0 || bitLen/8 > uint64(srcLen-pad.BlockSize()) {
 		return nil, errors.New("padding: invalid padding header")
+	}
+	dstLen := int(bitLen / 8)
+	// the padded data is the shortest whole number of blocks (one block for the empty message)
+	if rest := srcLen - pad.BlockSize() - dstLen; rest >= pad.BlockSize() && !(dstLen == 0 && rest == pad.BlockSize()) {
+		return nil, errors.New("padding: invalid src length")
 	}
 	padded := src[pad.BlockSize()+dstLen:]
 	for _, b := range padded {
